@@ -958,7 +958,11 @@ func generate(r *hxlib.Run, emit func(hxlib.Case)) {
 	b.add("corpus", []string{"stoptimeout short", "mod A ok ok p:err", "mod B - - -", "mgmt A=on B=on", "start", "settle", "status",
 		"spawn 1 task-queue ok", "spawn 2 runworker p:str onstop", "status", "disable A", "manage", "status", "finish 1", "status", "settle", "shutdown"}, false)
 	// 0. stop routine outcome x kind of the work that outlives the stop timeout x who stops the module
+	// (drawn from a generator of its own, so that the scenarios of the older classes are the same as before for a seed)
 	{
+		shared := r.Rng
+		r.Rng = rand.New(rand.NewSource(r.Seed*7919 + 506))
+		rng := r.Rng
 		lingerKinds := append(append([]string{}, workKinds...), taskKinds...)
 		k := 0
 		for _, byMgmt := range []bool{false, true} {
@@ -978,6 +982,7 @@ func generate(r *hxlib.Run, emit func(hxlib.Case)) {
 			tok := []string{"err", "ok", "-", "p:" + allPVs()[rng.Intn(len(allPVs()))]}[rng.Intn(4)]
 			b.stopTimeoutCase(rng.Intn(2) == 0, lingerKinds[rng.Intn(len(lingerKinds))], tok)
 		}
+		r.Rng = shared
 	}
 
 	allKinds := append(append(append([]string{}, workKinds...), taskKinds...), apiKinds...)
